@@ -5,7 +5,7 @@ CONSTANTS
   JTypes <- AllJ
   Axes <- Ax3
   Offsets <- K_Off1
-  Rots <- K_Rot2
+  Rots <- R0
   Anchors <- K_Anc1
   SitePos <- K_Site1
   SiteRots <- K_SRot1
@@ -28,6 +28,7 @@ CONSTANTS
   TenDamps <- One0
   TenArms <- One0
   Level = 2
+  Rand = FALSE
 INVARIANT TypeOK
 INVARIANT FramesProper
 INVARIANT JacIsDerivative
